@@ -337,6 +337,15 @@ class _UnitInterp:
                 if isinstance(n, ast.Constant) and n.value is None:
                     return True, None
                 return False, None
+            fo = env.get('#fo')
+            if fo is not None and isinstance(op, (ast.Eq, ast.NotEq)):
+                for a_, b_ in ((l, r), (r, l)):
+                    if isinstance(a_, ast.Name) and isinstance(b_, ast.Constant) and \
+                            isinstance(b_.value, (int, float)) and not isinstance(b_.value, bool):
+                        if a_.id == env.get('#f') and b_.value == 1:
+                            return fo[0] if isinstance(op, ast.Eq) else not fo[0]
+                        if a_.id == env.get('#o') and b_.value == 0:
+                            return fo[1] if isinstance(op, ast.Eq) else not fo[1]
             (kl, vl), (kr, vr) = val(l), val(r)
             if kl and kr:
                 if isinstance(op, (ast.Is, ast.Eq)):
@@ -384,7 +393,7 @@ class _UnitInterp:
                 return [(self._conv(env, _formula(v, f, o)), env)]
             if astx.names(v) & set(_UNITVARS):
                 raise _Unknown(v, f'return value depends on a unit string: {astx.src(v)}')
-            return [(('id',), env)]
+            return [(self._plain(env), env)]
         if isinstance(st, ast.Assign):
             env = dict(env)
             tg = st.targets[0] if len(st.targets) == 1 else None
@@ -396,7 +405,18 @@ class _UnitInterp:
                     raise _Unknown(st, f'unrecognised unit_conversion call: {astx.src(st)}')
                 env['#f'], env['#o'] = tg.elts[0].id, tg.elts[1].id
                 env['#conv'] = (env[c.args[0].id], env[c.args[1].id])
-                return [(None, env)]
+                a_, b_ = env['#conv']
+                if a_ is None or b_ is None:
+                    return [(('raise',), env)]
+                if a_ == b_:
+                    env['#fo'] = (True, True)
+                    return [(None, env)]
+                res = []
+                for fo in ((True, True), (True, False), (False, True), (False, False)):
+                    e2 = dict(env)
+                    e2['#fo'] = fo      # (factor == 1, offset == 0)
+                    res.append((None, e2))
+                return res
             if astx.mentions(st.value, 'unit_conversion'):
                 raise _Unknown(st, f'unrecognised unit_conversion use: {astx.src(st)}')
             if isinstance(tg, ast.Name) and tg.id in _UNITVARS:
@@ -441,6 +461,17 @@ class _UnitInterp:
         return [(None, env)]
 
     @staticmethod
+    def _plain(env):
+        """Outcome of returning the unconverted value."""
+        if '#conv' in env:
+            a, b = env['#conv']
+            if a != b:
+                if env.get('#fo') == (True, True):
+                    return ('conv', a, b)       # factor 1 and offset 0: nothing to apply
+                return ('skipconv', a, b, env.get('#fo'))
+        return ('id',)
+
+    @staticmethod
     def _conv(env, verdict):
         if verdict == 'badformula':
             return ('badformula',)
@@ -471,6 +502,17 @@ def units(repo, out):
             n += 1
             og, os_ = ig.outcomes(state), is_.outcomes(state)
             for fn, o in ((fg, og), (fs, os_)):
+                sk = [x for x in o if x[0] == 'skipconv']
+                if sk and fn.ident not in bad:
+                    what = 'factor == 1' if sk[0][3][0] else 'offset == 0'
+                    bad[fn.ident] = (fn, f'the conversion {sk[0][1]} -> {sk[0][2]} is skipped (value returned '
+                                     f'unconverted) on a path where only {what} is known: a conversion may be '
+                                     'skipped only when factor == 1 AND offset == 0 (degK <-> degC differ by an '
+                                     f'offset only); state {_fmt_state(state)}', 'unit-skip')
+                for x in sk:
+                    o.discard(x)
+                if sk and not o:
+                    o.add(('badformula',))
                 if ('badformula',) in o and fn.ident not in bad:
                     bad[fn.ident] = (fn, 'the conversion tuple is not applied as (val + offset) * factor with '
                                      '(factor, offset) = unit_conversion(...): set and get are no longer '
@@ -763,7 +805,7 @@ def _check_compose_loop(fn, out, tg, param, what):
     return lp
 
 
-@rule('C07.order', floor=4)
+@rule('C07.order', floor=5)
 def order(repo, out):
     """src_indices first, user indices last, composed left to right -- in get and in set alike."""
     # (a) convert_get
@@ -798,6 +840,79 @@ def order(repo, out):
                 + g.fmt_path(w), key='get-index-order')
     else:
         out.ok(fn, b_nodes[0].ast, 'src_inds_list is applied before [indices]')
+
+    # (a2) the value is brought to the addressed variable's shape before user indices are applied
+    node_shapes = {meta('param:node') + '.shape', meta('param:node') + '.global_shape'}
+
+    def is_reshape(n):
+        if n.kind != 'stmt' or not isinstance(n.ast, ast.Assign) or len(n.ast.targets) != 1:
+            return False
+        t, v = n.ast.targets[0], n.ast.value
+        if not (isinstance(t, ast.Name) and isinstance(v, ast.Call) and astx.callee_attr(v) == 'reshape'):
+            return False
+        shp = v.args[-1] if v.args else None
+        src_ok = (isinstance(astx.receiver(v), ast.Name) and astx.receiver(v).id == t.id) or \
+            (len(v.args) == 2 and isinstance(v.args[0], ast.Name) and v.args[0].id == t.id)
+        return shp is not None and src_ok and tg.tags(shp, n) <= node_shapes
+    R = g.where(is_reshape)
+
+    def is_discrete(t):
+        return isinstance(t, ast.Attribute) and t.attr == 'discrete' and \
+            tg.tags(t.value, tg.at(t)) == {meta('param:node')}
+    dtests = [n for n in g.where(lambda n: n.kind == 'test') if polarity(n.ast.test, is_discrete) is not None]
+
+    def shapes_equal_label(test, at):
+        """Edge label on which `value shape == node shape` is known, or None."""
+        neg = False
+        while isinstance(test, ast.UnaryOp) and isinstance(test.op, ast.Not):
+            neg, test = not neg, test.operand
+        if not (isinstance(test, ast.Compare) and len(test.ops) == 1 and
+                isinstance(test.ops[0], (ast.Eq, ast.NotEq))):
+            return None
+        sides = [test.left, test.comparators[0]]
+        hit = False
+        for a_, b_ in (sides, sides[::-1]):
+            inner = a_.args[0] if isinstance(a_, ast.Call) and astx.callee_attr(a_) == 'tuple' and \
+                len(a_.args) == 1 else a_
+            is_val = (isinstance(b_, ast.Attribute) and b_.attr == 'shape' and isinstance(b_.value, ast.Name)) \
+                or (isinstance(b_, ast.Call) and astx.callee_attr(b_) == 'shape' and len(b_.args) == 1)
+            if is_val and isinstance(inner, ast.Attribute) and tg.tags(inner, at) <= node_shapes:
+                hit = True
+        if not hit:
+            return None
+        eq_when_true = isinstance(test.ops[0], ast.Eq) != neg
+        return 'true' if eq_when_true else 'false'
+
+    def edge_ok(n, m, lab):
+        if n.kind == 'test' and lab in ('true', 'false'):
+            return shapes_equal_label(n.ast.test, n) != lab
+        return True
+    if len(dtests) != 1:
+        out.unsure(fn, fn.node, 'branch on node_meta.discrete not found')
+    else:
+        dt = dtests[0]
+        lab = 'false' if polarity(dt.ast.test, is_discrete) else 'true'
+        starts = [m for m, l in g.succ[dt] if l == lab]
+        w = g.path(starts, b_nodes + [g.exit], avoid=R, labels=cfgm.noexc, edge_ok=edge_ok)
+        if not R:
+            out.bad(fn, dt.ast, 'the source value is never reshaped to the shape of the addressed variable: '
+                    'get_val returns the source layout and user indices address other entries than in set_val',
+                    key='get-reshape')
+        elif w is None:
+            out.ok(fn, R[0].ast, 'value has the shape of the addressed variable before user indices are applied')
+        else:
+            vocab = {'get_remote', 'src_inds_list', 'val', 'node_meta', 'len', 'np', 'tuple', 'indices'}
+            tests = [n for n in w if n.kind == 'test' and n is not dt]
+            if all(astx.names(n.ast.test) <= vocab for n in tests):
+                guards = [n for n in tests if any(astx.in_body(r.ast, n.ast, 'body') or
+                                                  astx.in_body(r.ast, n.ast, 'orelse') for r in R)]
+                out.bad(fn, ((guards or tests)[-1].ast if tests else dt.ast),
+                        'a continuous value can reach the user-index step / the return without being reshaped to '
+                        'the shape of the addressed variable (equal rank or size does not imply equal shape: a '
+                        '(1,3) source feeding a (3,1) input): get_val returns another shape than set_val accepted '
+                        'and indices address other entries: ' + g.fmt_path(w), key='get-reshape')
+            else:
+                out.unsure(fn, tests[-1].ast, 'guard around the reshape not recognised: ' + g.fmt_path(w))
 
     # (b) set_val: index list handed to set_subarray
     fn = repo.func(CG, 'AllConnGraph.set_val')
@@ -1037,42 +1152,69 @@ def writeback(repo, out):
                     f'{s[0]}[{i}{s[1]:+d}]; level {i} must write child {chain}[{i}+1] into parent {chain}[{i}] '
                     f'with {p_inds}[{i}]', key='writeback-operands')
             continue
-        # guard
-        gverdict = 'ok'
-        for anc in astx.ancestors(astx.stmt_of(c)):
+        # guard: the call must execute whenever the child is not a view of its parent.  The guard is
+        # evaluated over the three possible values of child.base: the parent (view), None (owning copy),
+        # another array (copy whose base is a temporary, e.g. arr[:, [1, 3]]).
+        def geval(t, base):
+            if isinstance(t, ast.UnaryOp) and isinstance(t.op, ast.Not):
+                return not geval(t.operand, base)
+            if isinstance(t, ast.BoolOp):
+                vs = [geval(v, base) for v in t.values]
+                return all(vs) if isinstance(t.op, ast.And) else any(vs)
+            if isinstance(t, ast.Compare) and len(t.ops) == 1 and isinstance(t.ops[0], (ast.Is, ast.IsNot)):
+                l, rr = t.left, t.comparators[0]
+                if isinstance(rr, ast.Attribute) and rr.attr == 'base':
+                    l, rr = rr, l
+                if isinstance(l, ast.Attribute) and l.attr == 'base' and \
+                        _elem_of(tg, l.value, tg.at(t), i) == (chain, 1):
+                    if isinstance(rr, ast.Constant) and rr.value is None:
+                        other = 'none'
+                    elif _elem_of(tg, rr, tg.at(t), i) == (chain, 0):
+                        other = 'parent'
+                    else:
+                        raise _Unknown(t, 'base compared with an unrecognised operand')
+                    eq = (base == other)
+                    return eq if isinstance(t.ops[0], ast.Is) else not eq
+            raise _Unknown(t, f'unrecognised guard `{astx.src(t)}`')
+
+        conds = []       # (test, required truth value) for the call to execute
+        cst = astx.stmt_of(c)
+        for anc in astx.ancestors(cst):
             if anc is wl:
                 break
             if isinstance(anc, ast.If):
-                def is_view(t):
-                    # child.base is parent
-                    if not (isinstance(t, ast.Compare) and len(t.ops) == 1 and isinstance(t.ops[0], ast.Is)):
-                        return False
-                    l, rr = t.left, t.comparators[0]
-                    if not (isinstance(l, ast.Attribute) and l.attr == 'base'):
-                        return False
-                    return _elem_of(tg, l.value, tg.at(t), i) == (chain, 1) and \
-                        _elem_of(tg, rr, tg.at(t), i) == (chain, 0)
-
-                def is_copy(t):
-                    if not (isinstance(t, ast.Compare) and len(t.ops) == 1 and isinstance(t.ops[0], ast.IsNot)):
-                        return False
-                    t2 = ast.Compare(left=t.left, ops=[ast.Is()], comparators=t.comparators)
-                    t2._parent = getattr(t, '_parent', None)
-                    l, rr = t.left, t.comparators[0]
-                    if not (isinstance(l, ast.Attribute) and l.attr == 'base'):
-                        return False
-                    return _elem_of(tg, l.value, tg.at(t), i) == (chain, 1) and \
-                        _elem_of(tg, rr, tg.at(t), i) == (chain, 0)
-                pv = polarity(anc.test, is_view)
-                pc = polarity(anc.test, is_copy)
-                if pv is None and pc is None:
-                    gverdict = 'unsure'
-                    break
-                copy_when_true = pc if pc is not None else (not pv)
-                in_body = astx.in_body(astx.stmt_of(c), anc, 'body')
-                if copy_when_true != in_body:
+                conds.append((anc.test, astx.in_body(cst, anc, 'body')))
+            elif not isinstance(anc, (ast.If,)):
+                conds.append((None, None))
+        top = cst
+        while getattr(top, '_parent', None) is not wl and getattr(top, '_parent', None) is not None:
+            top = top._parent
+        if top in wl.body:
+            for prev_st in wl.body[:wl.body.index(top)]:
+                if isinstance(prev_st, ast.If) and not prev_st.orelse and prev_st.body and \
+                        isinstance(prev_st.body[-1], ast.Continue):
+                    conds.append((prev_st.test, False))
+                elif any(isinstance(x, (ast.Continue, ast.Break, ast.Return)) for x in astx.walk(prev_st)):
+                    conds.append((None, None))
+        gverdict = 'ok'
+        skipped = None
+        try:
+            if any(t is None for t, _ in conds):
+                raise _Unknown(cst, 'control flow around the write-back not recognised')
+            for base in ('parent', 'none', 'other'):
+                runs = all(geval(t, base) == want for t, want in conds)
+                if not runs and base != 'parent':
                     gverdict = 'bad'
+                    skipped = base
                     break
+        except _Unknown:
+            gverdict = 'unsure'
+        if gverdict == 'bad' and skipped == 'other':
+            out.bad(fn, c, 'the write-back is skipped for a child that is a copy whose .base is another temporary '
+                    '(numpy returns such arrays for `a[:, [1, 3]]`): only `child.base is parent` proves a view; '
+                    'values set through [slice, index-array] indices or src_indices are lost',
+                    key='writeback-guard')
+            continue
         if gverdict == 'bad':
             out.bad(fn, c, 'the write-back is performed only when the child is a *view* of its parent and skipped '
                     'when it is a copy: values set through index arrays are lost', key='writeback-guard')
@@ -1488,8 +1630,7 @@ _FULLW = ("                try:\n                    arr[:] = val\n             
           "                    arr[:] = val.reshape(arr.shape)\n                return")
 _CARRY = ("                if node_meta.discrete:\n                    self._discrete_outputs[name] = node_meta.val\n"
           "                else:\n                    self._outputs.set_var(name, node_meta.val)\n")
-_IVS = ("        if self._flat_src:\n            arr.ravel()[self.flat()] = val\n        else:\n"
-        "            arr[self()] = val")
+_IVS_IF = "        if self._flat_src:\n            # arr.flat writes through"
 
 selftest(
     'C07',
@@ -1568,14 +1709,16 @@ selftest(
            '        else:\n            pass\n\n        for i in range', 'C07.writeback'),
     Mutant('wb-full-write-dropped', CG, _FULLW, '                return', 'C07.writeback'),
     # ---- store
-    Mutant('store-branches-swapped', IDX, _IVS,
-           "        if not self._flat_src:\n            arr.ravel()[self.flat()] = val\n        else:\n"
-           "            arr[self()] = val", 'C07.store'),
+    Mutant('store-branches-swapped', IDX, _IVS_IF,
+           "        if not self._flat_src:\n            # arr.flat writes through", 'C07.store'),
+    Mutant('store-prefix-ravel', IDX, 'arr.flat[self.flat()] = val', 'arr.ravel()[self.flat()] = val', 'C07.store'),
+    Mutant('store-reshape-minus-one', IDX, 'arr.flat[self.flat()] = val', 'arr.reshape(-1)[self.flat()] = val',
+           'C07.store'),
     Mutant('store-shaped-uses-flat-index', IDX, '            arr[self()] = val', '            arr[self.flat()] = val',
            'C07.store'),
     Mutant('store-shaped-writes-copy', IDX, '            arr[self()] = val', '            arr.copy()[self()] = val',
            'C07.store'),
-    Mutant('store-flatten', IDX, 'arr.ravel()[self.flat()] = val', 'arr.flatten()[self.flat()] = val', 'C07.store'),
+    Mutant('store-flatten', IDX, 'arr.flat[self.flat()] = val', 'arr.flatten()[self.flat()] = val', 'C07.store'),
     # ---- phase
     Mutant('phase-get-never-vec', CG, 'kind=kind, flat=flat, use_vec=system.has_vectors())',
            'kind=kind, flat=flat, use_vec=False)', 'C07.phase'),
@@ -1604,6 +1747,44 @@ selftest(
            '                if not node_meta.discrete:\n                    self._discrete_outputs[name]', 'C07.phase'),
     Mutant('phase-carry-from-input-node', GRP, "            node = ('o', name)\n            node_meta = conn_graph.nodes[node]['attrs']",
            "            node = ('i', name)\n            node_meta = conn_graph.nodes[node]['attrs']", 'C07.phase'),
+    # ---- seeded round 2
+    Mutant('wb-guard-base-is-none', CG, 'if sub.base is not prev:', 'if sub.base is None:', 'C07.writeback'),
+    Mutant('wb-guard-base-not-none', CG, 'if sub.base is not prev:', 'if sub.base is not None:', 'C07.writeback'),
+    Mutant('wb-guard-continue-none', CG, _WB,
+           "            sub = chain[i + 1]\n            prev = chain[i]\n            idx = indices_list[i]\n"
+           "            if sub.base is not None:\n                continue\n"
+           "            idx.indexed_val_set(prev, sub)", 'C07.writeback'),
+    Mutant('order-get-reshape-on-ndim', CG, "            else:\n                val = val.reshape(node_meta.shape)",
+           "            elif val.ndim != len(node_meta.shape):\n                val = val.reshape(node_meta.shape)",
+           'C07.order'),
+    Mutant('order-get-reshape-on-size', CG, "            else:\n                val = val.reshape(node_meta.shape)",
+           "            elif val.size != np.prod(node_meta.shape):\n                val = val.reshape(node_meta.shape)",
+           'C07.order'),
+    Mutant('order-get-reshape-dropped', CG, "            else:\n                val = val.reshape(node_meta.shape)\n",
+           "", 'C07.order'),
+    Mutant('units-set-skip-on-scale', CG, "                return (val + offset) * scale\n\n        return val\n\n    def setup_global",
+           "                if scale != 1.0:\n                    return (val + offset) * scale\n\n        return val\n\n    def setup_global",
+           'C07.units'),
+    Mutant('units-get-skip-on-offset', CG, "                return (val + offset) * scale\n\n        return val\n\n    def convert_set",
+           "                if offset != 0.0:\n                    return (val + offset) * scale\n\n        return val\n\n    def convert_set",
+           'C07.units'),
+    Mutant('units-set-skip-and', CG, "                return (val + offset) * scale\n\n        return val\n\n    def setup_global",
+           "                if scale != 1.0 and offset != 0.0:\n                    return (val + offset) * scale\n\n        return val\n\n    def setup_global",
+           'C07.units'),
+    Twin('twin-units-skip-identity-or', CG, "                return (val + offset) * scale\n\n        return val\n\n    def setup_global",
+         "                if scale != 1.0 or offset != 0.0:\n                    return (val + offset) * scale\n\n        return val\n\n    def setup_global"),
+    Twin('twin-units-skip-identity-not-and', CG, "                return (val + offset) * scale\n\n        return val\n\n    def convert_set",
+         "                if not (scale == 1.0 and offset == 0.0):\n                    return (val + offset) * scale\n\n        return val\n\n    def convert_set"),
+    Twin('twin-order-reshape-if-shape-differs', CG, "            else:\n                val = val.reshape(node_meta.shape)",
+         "            elif val.shape != node_meta.shape:\n                val = val.reshape(node_meta.shape)"),
+    Twin('twin-order-reshape-unless-equal', CG, "            else:\n                val = val.reshape(node_meta.shape)",
+         "            elif not (tuple(node_meta.shape) == val.shape):\n                val = val.reshape(node_meta.shape)"),
+    Twin('twin-wb-guard-not-is', CG, 'if sub.base is not prev:', 'if not (sub.base is prev):'),
+    Twin('twin-wb-guard-continue', CG, _WB,
+         "            sub = chain[i + 1]\n            prev = chain[i]\n            idx = indices_list[i]\n"
+         "            if sub.base is prev:\n                continue\n"
+         "            idx.indexed_val_set(prev, sub)"),
+    Twin('twin-wb-guard-or-none', CG, 'if sub.base is not prev:', 'if sub.base is None or sub.base is not prev:'),
     # ---- twins
     Twin('twin-units-flip-compare', CG, '            if src_units != units:', '            if units != src_units:'),
     Twin('twin-units-commuted-formula', CG, 'return (val + offset) * scale', 'return scale * (offset + val)', nth=1),
@@ -1635,9 +1816,7 @@ selftest(
          "            sub = chain[i + 1]\n            prev = chain[i]\n            idx = indices_list[i]\n"
          "            if sub.base is prev:\n                continue\n            else:\n"
          "                idx.indexed_val_set(prev, sub)"),
-    Twin('twin-store-flat-fix', IDX, 'arr.ravel()[self.flat()] = val', 'arr.flat[self.flat()] = val'),
-    Twin('twin-store-flat-both', IDX, 'arr.ravel()[self.flat()] = val', 'arr.flat[self.flat()] = val',
-         also=[(IDX, 'return arr.ravel()[self.flat()]', 'return arr.flat[self.flat()]')]),
+    Twin('twin-store-flat-read-too', IDX, 'return arr.ravel()[self.flat()]', 'return arr.flat[self.flat()]'),
     Twin('twin-phase-get-flipped', CG, _USEVEC,
          "        if not use_vec:\n            val = src_meta.val\n        else:\n"
          "            val = system._abs_get_val(src_node[1], get_remote, rank, vec_name, kind, flat,\n"
@@ -1646,3 +1825,117 @@ selftest(
          "                if not node_meta.discrete:\n                    self._outputs.set_var(name, node_meta.val)\n"
          "                else:\n                    self._discrete_outputs[name] = node_meta.val\n"),
 )
+
+
+# --------------------------------------------------------------------------- C07.resolve
+def _guard_conds(stmt, stop):
+    """[(test, required truth)] of the enclosing ifs of stmt up to (excluding) `stop`; None if other
+    compound statements than if/try intervene."""
+    conds = []
+    for anc in astx.ancestors(stmt):
+        if anc is stop:
+            break
+        if isinstance(anc, ast.If):
+            if astx.in_body(stmt, anc, 'body'):
+                conds.append((anc.test, True))
+            elif astx.in_body(stmt, anc, 'orelse'):
+                conds.append((anc.test, False))
+        elif isinstance(anc, (ast.Try, ast.ExceptHandler)):
+            continue
+        elif isinstance(anc, (ast.For, ast.While, ast.With)):
+            conds.append((None, None))
+    return conds
+
+
+@rule('C07.resolve', floor=1)
+def resolve(repo, out):
+    """The second connection-resolution pass (final_setup) does not overwrite a source value set by set_val."""
+    fn = repo.func(CG, 'AllConnGraph.resolve_from_children')
+    tg = Tagger(fn)
+    IRRELEVANT = {'ambig_val', 'val', 'discrete', 'ambig_units'}
+
+    def ev(t, env):
+        """Evaluate guard t with env = dict(F=first pass, N=existing value is None, A=node is an auto_ivc)."""
+        if isinstance(t, ast.UnaryOp) and isinstance(t.op, ast.Not):
+            return not ev(t.operand, env)
+        if isinstance(t, ast.BoolOp):
+            vs = [ev(v, env) for v in t.values]
+            return all(vs) if isinstance(t.op, ast.And) else any(vs)
+        tt = tg.tags(t, tg.at(t)) if not isinstance(t, (ast.Compare,)) else set()
+        if tt and tt <= {'param:self._first_pass'}:
+            return env['F']
+        if isinstance(t, ast.Call) and astx.callee_attr(t) == 'startswith' and t.args and \
+                astx.const_str(t.args[0]) == '_auto_ivc.':
+            return env['A']
+        if isinstance(t, ast.Compare) and len(t.ops) == 1 and isinstance(t.ops[0], (ast.Is, ast.IsNot)) and \
+                isinstance(t.comparators[0], ast.Constant) and t.comparators[0].value is None:
+            lt = tg.tags(t.left, tg.at(t))
+            if lt <= {meta('param:node') + '.val', meta('param:node') + '._val'}:
+                return env['N'] if isinstance(t.ops[0], ast.Is) else not env['N']
+            if isinstance(t.left, ast.Name) and t.left.id in IRRELEVANT:
+                return isinstance(t.ops[0], ast.IsNot)      # the new value exists
+        if isinstance(t, ast.Name) and t.id in IRRELEVANT:
+            return False                                   # no ambiguity
+        raise _Unknown(t, f'guard `{astx.src(t)}` not recognised')
+
+    stores = []
+    for st in astx.walk_stmts(fn.node.body):
+        if isinstance(st, ast.Assign) and len(st.targets) == 1 and isinstance(st.targets[0], ast.Attribute) \
+                and st.targets[0].attr in ('val', '_val') and \
+                tg.tags(st.targets[0].value, tg.at(st)) == {meta('param:node')}:
+            org = _origins(tg, st.value, tg.at(st))
+            from_children = all(isinstance(o, ast.Call) and (
+                astx.callee_attr(o) == 'get_val_from_children' or
+                (astx.callee_attr(o) == 'deepcopy' and o.args and all(
+                    isinstance(o2, ast.Call) and astx.callee_attr(o2) == 'get_val_from_children'
+                    for o2, _ in _origins(tg, o.args[0], n)))) for o, n in org)
+            if from_children:
+                stores.append(st)
+    if not stores:
+        raise AnalysisError(f'{fn.ident}: store of the value derived from the children not found')
+    # call sites: is the function only run on the first pass?
+    caller = repo.func(CG, 'AllConnGraph.resolve_conn_tree')
+    tc = Tagger(caller)
+    callers_first_only = True
+    for c in calls_named(caller, 'resolve_from_children'):
+        conds = _guard_conds(astx.stmt_of(c), caller.node)
+        prot = False
+        for t, want in conds:
+            if t is None:
+                continue
+            tt = tc.tags(t, tc.at(t)) if isinstance(t, (ast.Name, ast.Attribute)) else set()
+            if tt and tt <= {'param:self._first_pass'} and want:
+                prot = True
+        callers_first_only &= prot
+    n_src = 0
+    for st in stores:
+        conds = _guard_conds(st, fn.node)
+        try:
+            if any(t is None for t, _ in conds):
+                raise _Unknown(st, 'store inside a loop/with')
+            runs = all(ev(t, dict(F=False, N=False, A=True)) == want for t, want in conds)
+        except _Unknown as u:
+            out.unsure(fn, st, u.why)
+            continue
+        if not runs:
+            reach_auto = None
+            try:
+                reach_auto = any(all(ev(t, dict(F=f, N=n_, A=True)) == want for t, want in conds)
+                                 for f in (True, False) for n_ in (True, False))
+            except _Unknown:
+                pass
+            if reach_auto:
+                n_src += 1
+                out.ok(fn, st, 'source value is only derived from children on the first pass or when still unset')
+            continue
+        n_src += 1
+        if callers_first_only:
+            out.ok(fn, st, 'resolve_conn_tree calls resolve_from_children on the first pass only')
+        else:
+            out.bad(fn, st, 'on the second resolution pass (Group._setup_part2 -> update_all_node_meta, run for every '
+                    'connection tree with a shape_by_conn/copy_shape node) the value of the auto_ivc source is '
+                    're-derived from the children / set_input_defaults and overwrites what set_val stored after '
+                    'setup(): the value is silently lost at final_setup (guard with `self._first_pass or '
+                    'node_meta.val is None`)', key='second-pass-overwrite')
+    if n_src == 0:
+        out.unsure(fn, stores[0], 'no store that can reach an auto_ivc source recognised')
